@@ -160,6 +160,7 @@ class C09:
             yield {"t": "table", "name": name}
         for p in pd.corpus_files():
             yield {"t": "corpus", "path": p}
+        yield {"t": "keys"}
         for vt, name in cpython_chain(self.tabs):
             if vt != (1, 2):        # 1.2 shares its magic number with 1.1 and has no release name of its own (see C06)
                 yield {"t": "patchlevel", "major": vt[0], "minor": vt[1]}
@@ -182,6 +183,31 @@ class C09:
             return self.judge_probe(case, ctx, res)
         if t == "patchlevel":
             return self.judge_patchlevel(case, ctx, res)
+        if t == "keys":
+            # every key of the version -> table registry names the table of that version and flavour
+            import re
+            n = 0
+            for key, mod in sorted(self.x.op_imports.op_imports.items(), key=lambda kv: str(kv[0])):
+                if not isinstance(key, str):
+                    continue
+                m = re.match(r"^(\d)\.(\d+)", key)
+                if not m:
+                    continue
+                n += 1
+                kvt = (int(m.group(1)), int(m.group(2)))
+                mname = mod.__name__.split(".")[-1]
+                if tuple(mod.version_tuple[:2]) != kvt:
+                    res.fail("C09|registry-key|version|%s" % key, "op_imports[%r] is %s, the table of %s" % (key, mname, mod.version_tuple))
+                if not re.match(r"^\d\.\d+(pypy|Graal)?$", key):
+                    continue        # (patch-level PyPy names such as 3.9.10pypy stand for releases that wrote CPython's magic)
+                flavour = "pypy" if key.lower().endswith("pypy") else ("graal" if key.lower().endswith("graal") else "")
+                mflav = "pypy" if mname.endswith("pypy") else ("graal" if mname.endswith("graal") else "")
+                if flavour != mflav and not (flavour == "graal" and mflav == ""):
+                    res.fail("C09|registry-key|flavour|%s" % key, "op_imports[%r] is %s: a %s key on a %s table" % (key, mname, flavour or "CPython", mflav or "CPython"))
+            res.evals = n
+            res.nt_keys = [["keys"]]
+            res.sample = {"kind": "registry keys", "keys": n}
+            return res
         res.reject = "malformed-case"
         return res
 
